@@ -70,6 +70,13 @@ type hctx struct {
 	failed       bool
 	tornAll      bool
 	noContinue   bool
+
+	// A failed cache snapshot stays in memory for a retry. A delete that runs
+	// before the retry neither reaches that data nor sees it when it prunes the
+	// index (known finding, judged by C10); from then on violations of this case
+	// carry the sticky condition in their signature instead of the crash chain.
+	snapFailedPending bool
+	taint             *string
 }
 
 func find(path string) *hctx {
@@ -166,10 +173,11 @@ func runCase(caseID string, seed int64, idx int, base string) {
 	c := &hctx{caseID: caseID, seed: seed, index: index, base: base, root: filepath.Join(base, "live"),
 		tr: sm.NewTracker(), g: g, walPre: map[string]int64{}, imgSeq: &seq,
 		contBudget: map[string]int{"torn": 1, "snap": 1, "other": 1},
-		tornAll:    r.Thorough()}
+		tornAll:    r.Thorough(), taint: new(string)}
 	if r.Thorough() {
 		c.contBudget = map[string]int{"torn": 3, "snap": 2, "other": 2}
 	}
+	c.tr.TolerateResurrected = true // resurrection of deleted points is C10's verdict, not C01's
 	r.Eval(1)
 	cfg := sm.DefaultGen()
 	cfg.Ops = 18 + g.Intn(12)
@@ -258,6 +266,9 @@ func (c *hctx) exec(op sm.Op) error {
 		if err != nil {
 			c.ops[len(c.ops)-1] += " (injected failure)"
 			r.Count("snapshot_failures_injected", 1)
+			c.snapFailedPending = true
+		} else {
+			c.snapFailedPending = false
 		}
 	case "compact":
 		if _, err := c.env.Compact(op.Compact, op.PPB, op.Arg); err != nil {
@@ -266,6 +277,9 @@ func (c *hctx) exec(op sm.Op) error {
 	case "delete":
 		min, max := op.EffRange()
 		c.pendD = &sm.PendingDel{Sel: op.Sel, Min: min, Max: max}
+		if c.snapFailedPending {
+			*c.taint = "delete-while-failed-snapshot-pending"
+		}
 		err := c.env.Delete(op.Sel, op.Min, op.Max, op.HasMin, op.HasMax)
 		c.pendD = nil
 		if err != nil {
@@ -274,6 +288,9 @@ func (c *hctx) exec(op sm.Op) error {
 		c.tr.ApplyDelete(op.Sel, min, max)
 	case "drop-measurement":
 		c.pendD = &sm.PendingDel{DropMeas: op.Meas}
+		if c.snapFailedPending {
+			*c.taint = "delete-while-failed-snapshot-pending"
+		}
 		err := c.env.DropMeasurement(op.Meas)
 		c.pendD = nil
 		if err != nil {
@@ -306,7 +323,18 @@ func short(kind string) string {
 }
 
 func (c *hctx) chainSig(last string) string {
+	if *c.taint != "" {
+		return *c.taint
+	}
 	return strings.Join(append(append([]string(nil), c.chain...), last), ">")
+}
+
+// sigTail is the crash chain, or the sticky condition of the case when one applies.
+func (c *hctx) sigTail(chain []string) string {
+	if *c.taint != "" {
+		return *c.taint
+	}
+	return strings.Join(chain, ">")
 }
 
 type witness struct {
@@ -438,7 +466,7 @@ func (c *hctx) judge(baseImg, tornRel, variant string, cut int64) {
 
 	child := &hctx{caseID: c.caseID, seed: c.seed, index: c.index, base: c.base, root: img, tr: exp, depth: c.depth + 1,
 		chain: append(append([]string(nil), c.chain...), variant), g: c.g, walPre: map[string]int64{}, imgSeq: c.imgSeq,
-		contBudget: c.contBudget, pendW: c.pendW, pendD: c.pendD, pendKind: c.pendKind, recovering: true, tornAll: c.tornAll,
+		contBudget: c.contBudget, pendW: c.pendW, pendD: c.pendD, pendKind: c.pendKind, recovering: true, tornAll: c.tornAll, taint: c.taint,
 		ops: []string{"(recovery of image taken during: " + c.lastOp() + ")"}}
 	register(child)
 	defer unregister(child)
@@ -460,7 +488,7 @@ func (c *hctx) judge(baseImg, tornRel, variant string, cut int64) {
 	}
 	if openErr != nil {
 		c.failed = true
-		r.Violation("C01/open-failed/"+strings.Join(child.chain, ">"), c.caseID, "store does not open on a crash image: "+openErr.Error(),
+		r.Violation("C01/open-failed/"+c.sigTail(child.chain), c.caseID, "store does not open on a crash image: "+openErr.Error(),
 			witness{c.seed, c.index, child.chain, c.ops, c.pendKind, openErr.Error(), files})
 		return
 	}
@@ -472,9 +500,12 @@ func (c *hctx) judge(baseImg, tornRel, variant string, cut int64) {
 	}()
 	reads, mm, err := exp.CheckAll(env, false)
 	r.Count("reads", int64(reads))
+	if exp.Resurrected > 0 {
+		r.Count("deleted_points_seen_again_left_to_C10", int64(exp.Resurrected))
+	}
 	if err != nil {
 		c.failed = true
-		r.Violation("C01/read-error/"+strings.Join(child.chain, ">"), c.caseID, "read fails on a recovered crash image: "+err.Error(),
+		r.Violation("C01/read-error/"+c.sigTail(child.chain), c.caseID, "read fails on a recovered crash image: "+err.Error(),
 			witness{c.seed, c.index, child.chain, c.ops, c.pendKind, err.Error(), files})
 		return
 	}
@@ -485,14 +516,14 @@ func (c *hctx) judge(baseImg, tornRel, variant string, cut int64) {
 			cutS = fmt.Sprintf(" (newest WAL segment cut at %d)", cut)
 		}
 		what := fmt.Sprintf("image %s%s taken while %q was in flight: %s", strings.Join(child.chain, ">"), cutS, c.pendKind, mm.Error())
-		r.Violation("C01/"+short(mm.Kind)+"/"+strings.Join(child.chain, ">"), c.caseID, what,
+		r.Violation("C01/"+short(mm.Kind)+"/"+c.sigTail(child.chain), c.caseID, what,
 			witness{c.seed, c.index, child.chain, c.ops, c.pendKind, what, files})
 		return
 	}
 	if !listingOK(env, exp) {
 		c.failed = true
 		what := "a measurement that holds acknowledged points is not listed after recovery of image " + strings.Join(child.chain, ">")
-		r.Violation("C01/measurement-not-listed/"+strings.Join(child.chain, ">"), c.caseID, what,
+		r.Violation("C01/measurement-not-listed/"+c.sigTail(child.chain), c.caseID, what,
 			witness{c.seed, c.index, child.chain, c.ops, c.pendKind, what, files})
 		return
 	}
